@@ -204,6 +204,10 @@ func (g *Gen) randBatch(name string, cfg batchCfg) *BatchSpec {
 				id = id[:[]int{127, 128, 129}[g.r.Intn(3)]] // exactly at the one-byte / two-byte boundary
 			}
 		}
+		if i == 1 && nd > 2 && g.chance(0.04) {
+			id = []byte{} // an external id may be the empty string
+			g.st("emptyid")
+		}
 		d := DocSpec{ID: id, Plain: g.chance(0.3)}
 		idf := FieldSpec{Kind: "fld", Name: "_id", Typ: 't', Stored: true, Len: 1, Val: id, Toks: []TokSpec{{Term: id, Freq: 1}}}
 		if idDV {
@@ -980,6 +984,46 @@ func (g *Gen) genC04(n int) error {
 		}
 		if i == 13 && !g.vectors {
 			g.exactChunkCase(1024 * (1 + g.r.Intn(2)))
+			g.st("case")
+			continue
+		}
+		if i == 21 || i == 22 {
+			// two segments of the same shape and size but different content, persisted one after the
+			// other at ONE path: the file is the second one's
+			g.setMode()
+			var sg [2]string
+			for k, w := range []string{"apple", "grape"} {
+				b := &BatchSpec{Name: g.fresh("b")}
+				for d := 0; d < 3; d++ {
+					id := []byte(fmt.Sprintf("same-%d", d))
+					doc := DocSpec{ID: id, Plain: true}
+					doc.Fields = append(doc.Fields, FieldSpec{Kind: "fld", Name: "_id", Typ: 't', Stored: true, Len: 1, Val: id, Toks: []TokSpec{{Term: id, Freq: 1}}})
+					doc.Fields = append(doc.Fields, FieldSpec{Kind: "fld", Name: "body", Typ: 't', Stored: true, DV: true, Len: 2, Val: []byte(w),
+						Toks: []TokSpec{{Term: []byte(w), Freq: 1, Locs: []LocSpec{{Pos: 1, Start: 0, End: 5}}}, {Term: []byte([]string{"blue", "pink"}[k]), Freq: 1}}})
+					b.Docs = append(b.Docs, doc)
+				}
+				g.emitBatch(b)
+				sg[k] = g.fresh("s")
+				g.emit("build %s %s", sg[k], b.Name)
+				g.newBuilt(sg[k], b)
+			}
+			f := g.fresh("f")
+			g.emit("persist %s %s", sg[0], f)
+			o1 := g.fresh("o")
+			g.emit("open %s %s", o1, f)
+			g.alias(o1, sg[0])
+			g.dumpAll(o1)
+			g.emit("close %s", o1)
+			g.emit("persist %s %s keep=1", sg[1], f)
+			w := g.fresh("w")
+			g.emit("writeto %s %s", sg[1], w)
+			g.emit("cmpfile %s %s", f, w)
+			o2 := g.fresh("o")
+			g.emit("open %s %s", o2, f)
+			g.alias(o2, sg[1])
+			g.dumpAll(o2)
+			g.emit("close %s", o2)
+			g.st("persist-same-size")
 			g.st("case")
 			continue
 		}
@@ -2084,6 +2128,24 @@ func (g *Gen) wideSchemaCase(files bool) {
 		g.emit("open %s %s", m, mf)
 		g.ndocs[m] = 5
 		segs = append(segs, m)
+		// and once with an input of another field list, so that every posting is decoded and written
+		// anew under the merged field numbers (the extra field sorts last: the others keep their numbers)
+		bx := &BatchSpec{Name: g.fresh("b")}
+		idx := []byte(bx.Name + "-0")
+		bx.Docs = append(bx.Docs, DocSpec{ID: idx, Plain: true, Fields: []FieldSpec{
+			{Kind: "fld", Name: "_id", Typ: 't', Stored: true, Len: 1, Val: idx, Toks: []TokSpec{{Term: idx, Freq: 1}}},
+			{Kind: "fld", Name: "zzlast", Typ: 't', Len: 1, Toks: []TokSpec{{Term: []byte("x"), Freq: 1, Locs: []LocSpec{{Pos: 1, Start: 0, End: 1}}}}}}})
+		g.emitBatch(bx)
+		sx := g.fresh("s")
+		g.emit("build %s %s", sx, bx.Name)
+		g.newBuilt(sx, bx)
+		mf2 := g.fresh("f")
+		g.emit("merge %s segs=%s,%s drops=1|nil", mf2, o, sx)
+		g.emit("dumpfile %s", mf2)
+		m2 := g.fresh("m")
+		g.emit("open %s %s", m2, mf2)
+		g.ndocs[m2] = 4
+		segs = append(segs, m2)
 	}
 	x := hx([]byte("x"))
 	if g.reopenedOnly {
@@ -2091,7 +2153,7 @@ func (g *Gen) wideSchemaCase(files bool) {
 	}
 	for _, seg := range segs {
 		g.emit("q fields %s", seg)
-		for _, fn := range []string{"_all", fmt.Sprintf("f%03d", nf-1), fmt.Sprintf("f%03d", nf-9), "f000", "f126", "f127"} {
+		for _, fn := range []string{"_all", fmt.Sprintf("f%03d", nf-1), fmt.Sprintf("f%03d", nf-9), "f000", "f124", "f125", "f126", "f127"} {
 			g.emit("q post %s %s %s ex=nil fl=111 ops=N,N,N,N,N,N", seg, fn, x)
 			g.emit("q post %s %s %s ex=0 fl=111 ops=N,N,N,N,N", seg, fn, x)
 			g.emit("q post %s %s %s ex=1,2 fl=111 ops=N,N,N,N", seg, fn, x)
